@@ -16,12 +16,29 @@ def run(ctx):
     recs, errors = tl.gather(ctx, ns_min=0)
     ctx.extra["exports_that_raised"] = len(errors)
     tl.check(ctx, "DrawC09.cfg", recs, "C09_")
+    frame_conformance(ctx, recs)
     ctx.evaluations += 2 * len(recs)
     ctx.nontrivial += len({r["svg"]["sha"] for r in recs if max(n["layer"] for n in r["svg"]["nodes"]) > 0 or r["svg"]["n"] >= 2})
     small = [r for r in recs if r["svg"]["n"] <= 2]
     if small:
         ctx.sample({"svg": small[0]["svg"]})
     ctx.sample({"n": recs[0]["svg"]["n"], "dir": recs[0]["svg"]["dir"], "boxes": recs[0]["tikz"]["boxes"][:2], "links": recs[0]["tikz"]["links"][:1]})
+
+
+def frame_conformance(ctx, recs):
+    """spec/Frame.tla: document frame (size, margin and main-layer shifts, TikZ border) and tick decorations as a function of the
+    options alone.  Outside the listed properties (C09 compares inside the main layer): drift only."""
+    sub = [{"svg": {k: r["svg"][k] for k in ("opt", "frame", "dir", "L5", "dots")},
+            "tikz": {k: r["tikz"][k] for k in ("opt", "frame", "dir", "L5", "dots")}} for r in recs if "frame" in r["svg"]]
+    res, st = core.validate_records("Frame", "FrameDrift.cfg", sub, per_shard=400, heap="2g")
+    ctx.states += st["distinct"]
+    ctx.transitions += st["generated"]
+    drift = sorted({i for i, inv in res})
+    ctx.extra["frame_model_conformance"] = {"exports_compared": len(sub), "frame_and_decorations_as_Frame.tla": len(sub) - len(drift),
+                                            "spec_drift": len(drift), "clauses": sorted({inv for i, inv in res})}
+    if drift:
+        ctx.notes.append("spec drift: %d exports do not have the document frame of spec/Frame.tla (%s)"
+                         % (len(drift), ", ".join(sorted({inv for i, inv in res}))))
 
 
 def replay(path):
